@@ -395,4 +395,137 @@ theorem evalFor_sim_step {σ : Sh} {fuel : Nat} (ih : SimSpec σ fuel) : ∀ c b
   | some v => exact SimAt.pure hR1 rfl
   | none => exact ih.evalForLoop _ _ .null _ _ hR1
 
+theorem evalForLoop_sim_step {σ : Sh} {fuel : Nat} (ih : SimSpec σ fuel) : ∀ c body last s t, StR σ s t →
+    SimAt σ (evalForLoop (fuel + 1) c body (ren σ last)) (evalForLoop (fuel + 1) c body last) s t (QO σ) := by
+  intro c body last s t hR
+  unfold Grol.E.evalForLoop
+  refine SimAt.bind (ih.evalI _ _ _ hR) ?_
+  rintro _ cv s1 t1 hR1 rfl
+  refine SimAt.bind (sim_valueOf hR1 cv) ?_
+  rintro _ condition s2 t2 hR2 ⟨rfl, _⟩
+  cases condition with
+  | bool b =>
+    cases b with
+    | true =>
+      simp only [ren]
+      refine SimAt.bind (ih.evalI _ _ _ hR2) ?_
+      rintro _ r s3 t3 hR3 rfl
+      cases r with
+      | error m => exact SimAt.pure hR3 rfl
+      | ret v kind =>
+        simp only [ren]
+        refine SimAt.ite (fun _ => SimAt.pure hR3 rfl) (fun _ => ?_)
+        exact SimAt.ite (fun _ => ih.evalForLoop _ _ _ _ _ hR3) (fun _ => SimAt.pure hR3 rfl)
+      | _ => all_goals exact ih.evalForLoop _ _ _ _ _ hR3
+    | false => exact SimAt.pure hR2 rfl
+  | null => exact SimAt.pure hR2 rfl
+  | error m => exact SimAt.pure hR2 rfl
+  | int n => exact ih.evalForInteger _ _ _ _ .null _ _ hR2
+  | _ => all_goals exact SimAt.pure hR2 rfl
+
+theorem sim_someOf {σ : Sh} {s t : St} {x y : M Obj} (h : SimAt σ x y s t (QO σ)) :
+    SimAt σ (x >>= fun a => pure (some a)) (y >>= fun a => pure (some a)) s t (QOpt σ) := by
+  refine SimAt.bind h ?_
+  rintro _ a s' t' hR' rfl
+  exact SimAt.pure hR' rfl
+
+theorem evalForSpecialForms_sim_step {σ : Sh} {fuel : Nat} (ih : SimSpec σ fuel) : ∀ c body s t, StR σ s t →
+    SimAt σ (evalForSpecialForms (fuel + 1) c body) (evalForSpecialForms (fuel + 1) c body) s t (QOpt σ) := by
+  intro c body s t hR
+  unfold Grol.E.evalForSpecialForms
+  split
+  · next op l r =>
+    refine SimAt.ite (fun _ => SimAt.pure hR rfl) (fun _ => ?_)
+    split
+    · next name =>
+      split
+      · next rl rr =>
+        refine SimAt.bind (ih.evalI _ _ _ hR) ?_
+        rintro _ start0 s1 t1 hR1 rfl
+        refine SimAt.bind (sim_valueOf hR1 start0) ?_
+        rintro _ start s2 t2 hR2 ⟨rfl, _⟩
+        rw [int64Value_ren]
+        cases int64Value start with
+        | none => exact SimAt.pure hR2 rfl
+        | some sv =>
+          dsimp only
+          refine SimAt.bind (ih.evalI _ _ _ hR2) ?_
+          rintro _ end0 s3 t3 hR3 rfl
+          refine SimAt.bind (sim_valueOf hR3 end0) ?_
+          rintro _ endV s4 t4 hR4 ⟨rfl, _⟩
+          rw [int64Value_ren]
+          cases int64Value endV with
+          | none => exact SimAt.pure hR4 rfl
+          | some ev => exact sim_someOf (ih.evalForInteger _ _ _ _ .null _ _ hR4)
+      · refine SimAt.bind (ih.evalI _ _ _ hR) ?_
+        rintro _ v0 s1 t1 hR1 rfl
+        refine SimAt.bind (sim_valueOf hR1 v0) ?_
+        rintro _ v s2 t2 hR2 ⟨rfl, _⟩
+        cases v with
+        | int n => exact sim_someOf (ih.evalForInteger _ _ _ _ .null _ _ hR2)
+        | error m => exact SimAt.pure hR2 rfl
+        | array els => exact sim_someOf (ih.evalForList _ (.array els) _ .null _ _ hR2)
+        | map b kvs => exact sim_someOf (ih.evalForList _ (.map b kvs) _ .null _ _ hR2)
+        | str x => exact sim_someOf (ih.evalForList _ (.str x) _ .null _ _ hR2)
+        | _ => all_goals exact SimAt.pure hR2 rfl
+    · exact SimAt.pure hR rfl
+  · exact SimAt.pure hR rfl
+
+theorem evalForInteger_sim_step {σ : Sh} {fuel : Nat} (ih : SimSpec σ fuel) :
+    ∀ body i endV name last s t, StR σ s t →
+    SimAt σ (evalForInteger (fuel + 1) body i endV name (ren σ last))
+      (evalForInteger (fuel + 1) body i endV name last) s t (QO σ) := by
+  intro body i endV name last s t hR
+  unfold Grol.E.evalForInteger
+  refine SimAt.ite (fun _ => SimAt.pure hR rfl) (fun _ => ?_)
+  refine SimAt.ite (fun _ => SimAt.pure hR rfl) (fun _ => ?_)
+  extract_lets jpS jpT
+  have hjp : ∀ u s1 t1, StR σ s1 t1 → SimAt σ (jpS u) (jpT u) s1 t1 (QO σ) := by
+    intro u s1 t1 hR1
+    unfold jpS jpT
+    refine SimAt.bind (ih.evalI _ _ _ hR1) ?_
+    rintro _ r s2 t2 hR2 rfl
+    cases r with
+    | error m => exact SimAt.pure hR2 rfl
+    | ret v kind =>
+      simp only [ren]
+      refine SimAt.ite (fun _ => SimAt.pure hR2 rfl) (fun _ => ?_)
+      refine SimAt.ite (fun _ => ih.evalForInteger _ _ _ _ _ _ _ hR2) (fun _ => ?_)
+      exact SimAt.ite (fun _ => SimAt.pure hR2 rfl) (fun _ => SimAt.pure hR2 rfl)
+    | _ => all_goals exact ih.evalForInteger _ _ _ _ _ _ _ hR2
+  refine SimAt.ite (fun _ => ?_) (fun _ => hjp () _ _ hR)
+  refine sim_curEnv_bind hR ?_
+  refine SimAt.bind (sim_envSet' hR t.cur name rfl) ?_
+  rintro _ oerr s1 t1 hR1 rfl
+  rw [ren_isError]
+  exact SimAt.ite (fun _ => SimAt.pure hR1 rfl) (fun _ => hjp () _ _ hR1)
+
+theorem evalForList_sim_step {σ : Sh} {fuel : Nat} (ih : SimSpec σ fuel) :
+    ∀ body list name last s t, StR σ s t →
+    SimAt σ (evalForList (fuel + 1) body (ren σ list) name (ren σ last))
+      (evalForList (fuel + 1) body list name last) s t (QO σ) := by
+  intro body list name last s t hR
+  unfold Grol.E.evalForList
+  rw [objLen_ren]
+  refine SimAt.ite (fun _ => SimAt.pure hR rfl) (fun _ => ?_)
+  refine SimAt.bind (sim_objFirst hR list) ?_
+  rintro _ v s1 t1 hR1 rfl
+  refine SimAt.bind (sim_objRest hR1 list) ?_
+  rintro _ rest s2 t2 hR2 rfl
+  refine sim_curEnv_bind hR2 ?_
+  refine SimAt.bind (sim_envSet hR2 t2.cur name v) ?_
+  rintro _ oerr s3 t3 hR3 rfl
+  rw [ren_isError]
+  refine SimAt.ite (fun _ => SimAt.pure hR3 rfl) (fun _ => ?_)
+  refine SimAt.bind (ih.evalI _ _ _ hR3) ?_
+  rintro _ r s4 t4 hR4 rfl
+  cases r with
+  | error m => exact SimAt.pure hR4 rfl
+  | ret v' kind =>
+    simp only [ren]
+    refine SimAt.ite (fun _ => SimAt.pure hR4 rfl) (fun _ => ?_)
+    refine SimAt.ite (fun _ => ih.evalForList _ _ _ _ _ _ hR4) (fun _ => ?_)
+    exact SimAt.ite (fun _ => SimAt.pure hR4 rfl) (fun _ => SimAt.pure hR4 rfl)
+  | _ => all_goals exact ih.evalForList _ _ _ _ _ _ hR4
+
 end Grol.R
